@@ -108,6 +108,34 @@ theorem C12_clang_error_iff (thr : Nat) (ds : List Diag) :
     · simp only [Option.getD_none, List.nil_append, Option.some.injEq] at h
       exact h.symm
 
+/-- diagnostics below the threshold (notes, warnings) never influence the outcome: the scan of a
+list equals the scan of its error diagnostics alone -/
+theorem C12_warnings_irrelevant (thr : Nat) (ds : List Diag) :
+    scanDiags thr ds = scanDiags thr (errorsOf thr ds) := by
+  unfold scanDiags
+  rw [scan_foldl, scan_foldl]
+  have : errorsOf thr (errorsOf thr ds) = errorsOf thr ds := by simp [errorsOf]
+  rw [this]
+
+/-- **the error carries clang's diagnostics**: every error diagnostic's message, followed by a
+newline, occurs in the message of `ClangDiagnostic` -/
+theorem C12_error_message_complete (thr : Nat) (ds : List Diag) (m : List Char)
+    (h : scanDiags thr ds = some m) (d : Diag) (hd : d ∈ ds) (hs : d.severity ≥ thr) :
+    ∃ pre post, m = pre ++ (d.msg ++ ['\n']) ++ post := by
+  have hm := ((C12_clang_error_iff thr ds).2 m h).2
+  have hmem : d ∈ errorsOf thr ds := mem_filter.mpr ⟨hd, by simpa using hs⟩
+  obtain ⟨l₁, l₂, e⟩ := List.append_of_mem hmem
+  refine ⟨render l₁, render l₂, ?_⟩
+  rw [hm, e]
+  simp [render, List.flatMap_append]
+
+/-- a single fatal or error diagnostic anywhere in the list is enough for `Err` -/
+theorem C12_one_error_suffices (thr : Nat) (pre post : List Diag) (d : Diag) (hs : d.severity ≥ thr) :
+    scanDiags thr (pre ++ d :: post) ≠ none := by
+  intro h
+  have := ((C12_clang_error_iff thr _).1.1 h) d (by simp)
+  omega
+
 /-! ## edition check -/
 
 /-- **unsupported_edition_iff** -/
